@@ -184,6 +184,8 @@ class _SymNum:
         return z
 
     def _bin(self, o, f, swap=False):
+        if _CUR._pending_budget:
+            _CUR.poll_budget()
         z = self._co(o)
         if z is None:
             return NotImplemented
@@ -196,6 +198,8 @@ class _SymNum:
         return self._wrap(z3.simplify(f(a, b)))
 
     def _cmp(self, o, f):
+        if _CUR._pending_budget:
+            _CUR.poll_budget()
         z = self._co(o)
         if z is None:
             return NotImplemented
@@ -383,6 +387,7 @@ class Explorer:
         self.abort_shard = False
         self._busy = 0
         self._pending_budget = False
+        self._ticks_pending = 0
         self.levels = 0       # solver push levels == decisions of the current path asserted so far
         self.kept_levels = 0  # levels retained from the previous path (shared prefix)
         self.ops = 0          # solver.add operations outside decisions, in path order
@@ -689,12 +694,26 @@ class Explorer:
 
     # ---------------------------------------------------------------- driver
     def _alarm(self, *_):
-        if self._busy:  # never unwind out of the middle of a solver operation (push/add/check/pop must stay balanced)
-            self._pending_budget = True
-            return
-        raise PathBudget()
+        # Raising from a signal handler can land inside z3's ctypes wrappers or AstRef.__del__, where the exception is
+        # swallowed ("Exception ignored") and reference counts get corrupted.  So: set a flag that the proxies and the
+        # explorer API poll at safe points; only if nothing polls it for 3 more ticks (a loop over concrete values only),
+        # raise from here.
+        self._pending_budget = True
+        self._ticks_pending += 1
+        if self._ticks_pending > 3 and not self._busy:
+            f = sys._getframe(1)
+            if "z3" not in f.f_code.co_filename:
+                raise PathBudget()
+
+    def poll_budget(self):
+        if self._pending_budget and not self._busy:
+            self._pending_budget = False
+            raise PathBudget()
 
     def _enter(self):
+        if self._pending_budget and not self._busy:
+            self._pending_budget = False
+            raise PathBudget()
         self._busy += 1
 
     def _leave(self):
@@ -713,6 +732,7 @@ class Explorer:
         self._reached = False
         self._busy = 0
         self._pending_budget = False
+        self._ticks_pending = 0
         self.stats["paths"] += 1
         use_alarm = self.path_seconds and hasattr(signal, "SIGPROF")
         if use_alarm:  # CPU-time budget of this process (robust against a loaded machine)
@@ -869,14 +889,28 @@ class ConcreteExplorer:
     def note(self, key, n=1):
         self.notes[key] = self.notes.get(key, 0) + n
 
-    def run(self, fn):
+    def run(self, fn, path_seconds=30):
+        """path_seconds: CPU-time budget, so that a replayed non-termination ends (no z3 objects here: raising from the
+        handler is safe)."""
         global _CUR
         old = _CUR
         _CUR = self
+
+        def on_alarm(*_):
+            raise PathBudget()
+
+        prev = signal.signal(signal.SIGPROF, on_alarm)
+        signal.setitimer(signal.ITIMER_PROF, path_seconds, 1.0)
         try:
-            fn(self)
+            try:
+                fn(self)
+            finally:
+                signal.setitimer(signal.ITIMER_PROF, 0)
+                signal.signal(signal.SIGPROF, prev)
             return "completed"
         except Infeasible:
             return "infeasible"
+        except PathBudget:
+            return "budget"
         finally:
             _CUR = old
